@@ -142,7 +142,7 @@ class C01(e1.E1Check):
                                     reg(1, var(I)), var(var(opt(I))), rec(("x", var(I)), ("y", var(var(F)))),
                                     var(rec(("x", opt(I)), ("y", var(I)))), var(opt(S)), F, B, var(B),
                                     union(I, var(I)), var(union(I, S))]
-    bounds_quick = dict(N=3, M=2, K=6, enc_k=1, state_cap=40, parts=2)
+    bounds_quick = dict(N=2, M=2, K=5, enc_k=1, state_cap=24, parts=2)
     bounds_thorough = dict(N=3, M=2, K=8, enc_k=2, state_cap=400, parts=8)
     rule = ("states = arrays of the type menu x physical encodings (<= enc_k non-canonical nodes); transitions = getitem with "
             "every single item of the full item alphabet (all ints, all start/stop/step ranges, ellipsis, newaxis, all small "
@@ -190,7 +190,12 @@ class C01(e1.E1Check):
                 kinds.append("ellipsis")
             else:
                 kinds.append(x[0] + (":" + x[2] if x[0] == "a" else ""))
-        return {"items": "+".join(kinds), "type": values.tstr(T)}
+        adv_empty = False
+        for x in (sl[1:] if isinstance(sl, (list, tuple)) and sl and sl[0] == "t" else [sl]):
+            if isinstance(x, (list, tuple)) and len(x) > 1 and x[0] == "a":
+                arr = np.array(x[1], dtype=x[2])
+                adv_empty = adv_empty or (int(arr.sum()) == 0 if arr.dtype == np.bool_ else arr.size == 0)
+        return {"items": "+".join(kinds), "adv_empty": adv_empty}
 
 
 if __name__ == "__main__":
